@@ -703,6 +703,13 @@ def load_corpus():
 def replay_finding(fid, f):
     """True iff the pinned reproducer still shows the defect on the real code"""
     rp = f["reproducer"]
+    if fid == "C17-F4":
+        from vp import pipedecor
+        with_opt = pipedecor.impl_text(rp["ts"], rp["cfg"])
+        plain = dict(rp["cfg"], detect_minimal_iri=False, examples_mode=None)
+        without = pipedecor.impl_text(rp["ts"], plain)
+        return (with_opt[0] == "err" and with_opt[1] == "AttributeError" and without[0] == "ok",
+                "with examples_mode=%r: %s; without: %s" % (rp["cfg"]["examples_mode"], with_opt[:2], without[0]))
     case = {"idx": -1, "triples": [tuple(t) for t in rp["triples"]], "classes": rp["classes"], "ns": None,
             "only": rp["config"]}
     res = impl_case(case)
@@ -854,6 +861,19 @@ def run(tier, seed, replay=None):
         for probs, payload in stats["parse_problems"][:3]:
             run.internal_errors.append("cannot parse the serialised output: %r" % (probs,))
 
+    # ---------------- (d) decorated ShExC text, byte for byte (harness/vp/pipedecor.py) ----------------
+    decor = None
+    if mb is not None and (rp is None or rp.get("kind") == "decor"):
+        from vp import pipedecor
+        only = None if rp is None else {"ts": rp["ts"], "cfg": rp["cfg"], "origin": rp.get("origin")}
+        decor, decor_items = pipedecor.stream(tier, seed, cases, findings, only_item=only)
+        corr_fail += decor["corr_fail"]
+        spec_fail += decor["spec_fail"]
+        for k, v in decor["known_hits"].items():
+            known_hits[k] = known_hits.get(k, 0) + v
+        if rp is None:
+            vm_cases += pipedecor.vm_cases(decor_items)
+
     # ---------------- vm_compute cross-check ----------------
     vm_n = 0
     if mb is not None and rp is None and vm_cases:
@@ -882,7 +902,9 @@ def run(tier, seed, replay=None):
         if corr_fail:
             what, payload = corr_fail[0]
             p = dict(payload)
-            p.update({"broken": "correspondence Model/MinIri.v + Model/Examples.v vs shexer (longest_common_prefix, "
+            p.update({"broken": "correspondence Model/RunDecor.v (run_shexc_decor) vs the ShExC text of Shaper(..., "
+                                "detect_minimal_iri, examples_mode).shex_graph" if payload.get("kind") == "decor" else
+                                "correspondence Model/MinIri.v + Model/Examples.v vs shexer (longest_common_prefix, "
                                 "_update_shape_min_iri, _determine_suitable_iri_pattern, example bookkeeping)",
                       "first_case": what, "n_disagreements": len(corr_fail)})
             run.violation("correspondence C17 no longer checks: " + what, p, failing_input=False)
@@ -896,6 +918,14 @@ def run(tier, seed, replay=None):
 
     fl = cov.get("function_level", {})
     evaluations = fl.get("determine_inputs", 0) + fl.get("lcp_pairs", 0) + fl.get("fold_id_lists", 0) + stats["runs"]
+    if decor is not None:
+        evaluations += decor["n"]
+        cov["decorated_text"] = dict(decor["cov"], disagreements=len(decor["corr_fail"]), oracle_failures=len(decor["spec_fail"]),
+                                     rule="real ShExC text == run_shexc_decor text, byte for byte after the ratio shim; "
+                                          "every C17 graph x examples_mode x detect_minimal_iri x inverse_paths (report mode, "
+                                          "namespaces, switches, threshold, OR, target classes vary per case) + pipeline "
+                                          "graphs with rich configurations; in_strip_domain = cases inside the computable "
+                                          "domain of C17_text_strip_decor")
     cov.update({
         "evaluations": evaluations,
         "distinct_nontrivial": fl.get("id_lists_with_a_stem", 0) + stats["stem_kinds"]["some"] + stats["shape_ex_checks"]
@@ -936,6 +966,7 @@ def run(tier, seed, replay=None):
         "the generated N-Triples text is delivered by the real reader as the generated abstract triples (monitored on "
         "every graph; C06 is about the reader)",
         "the instance dictionary is the one Model/Tracker.v computes (all_classes_mode, no cap)",
+        "decorated text: the decimal rendering of a ratio is the shim of harness/vp/pipe.py (as for every pipeline property)",
         "examples are compared by their text and by IRI/literal kind as printed; the datatype of a literal example is "
         "not printed by the code and not compared",
     ]
